@@ -10,8 +10,8 @@ import (
 
 func init() {
 	register(&propDef{
-		ID:  "C04",
-		Run: ruleC04,
+		ID:          "C04",
+		Run:         ruleC04,
 		Explanation: "Decides who may write what (structural necessary conditions of C04): (R1) the parsed line is mutated only by Set calls with constant keys from an enumerated table - attr.remote under --redactIPs with a constant, the three command documents re-stored as themselves, attr.planSummary under the per-line field-name mode, attr.ns under --redactNamespaces, the zone keys inside a command document, the namespace-bearing command keys under --redactNamespaces - never by Delete/ReplaceKey, never on the root entry, and element stores into input arrays happen only inside the zone walkers; the line function returns the parsed entry itself; (R2) number tokens stay json.Number: UseNumber dominates every decoder use and nothing on the line path converts a number; (R3) inside zones an object key changes only under the field-name parameter; (R4) $limit / $skip / $sample / search index, limit, numCandidates / $binary.subType are typed Exempt in the reconstructed tables and every Exempt arm of the walkers stores the value it was given, untouched; (R5) the parser inserts members in token order, appends array elements one per token and returns scalar tokens unchanged; the serialiser walks Front-to-Next and marshals every member's key and value; (R6) command documents are dispatched only under the component/message gate with no disjunct beyond COMMAND, QUERY, WRITE, 'Slow query'. NOT decided: byte-level rendering of strings and numbers by encoding/json (HTML escaping of < > & is a semantically identical re-encoding).",
 		RuleText:    "obligations = every mutator call / element store whose receiver is (part of) the parsed line (provenance IN), decoder uses, HashName calls feeding a key, table positions the statement names, Exempt-guarded walker sinks, parser and serialiser loops, dispatch gates",
 	})
